@@ -238,7 +238,9 @@ def run(ctx):
         ck.ob("C16-R4", fn, "excluded-iff-any-pattern-matches", anys == 1)
         # the glob is compiled from the pattern as given: by the glob crate's constructor, applied to a plain variable
         # (no trimming, case folding or other rewriting of the pattern on the way)
-        news = [c for c in hirq.calls(h["body"]) if "WildMatch" in (hirq.callee_of(c) or "") and (hirq.callee_of(c) or "").endswith("::new")]
+        # (wherever in the crate the patterns are compiled: a refactoring may move that into a helper or a closure)
+        news = [c for hp, hh in sorted(ctx.F.hir.items()) if "tests::" not in hp for c in hirq.calls(hh["body"])
+                if "WildMatch" in (hirq.callee_of(c) or "") and (hirq.callee_of(c) or "").endswith("::new")]
         plain = bool(news) and all((hirq.callee_of(c) or "").startswith("wildmatch::") and hirq.strip_ref(hirq.call_args(c)[0]).get("k") == "Path" for c in news)
         ck.ob("C16-R4", fn, "glob-compiled-by-wildmatch-from-the-pattern-as-given", plain,
               detail=None if plain else "constructors: %s" % [(hirq.callee_of(c), hirq.strip_ref(hirq.call_args(c)[0]).get("k")) for c in news])
